@@ -6,19 +6,32 @@
 //!      iss / sub / jti / nbf / exp (and not inside `vc`) -> back through `JwtCredentialValidator::verify_signature`
 //!      (always-Ok harness verifier) -> equal credential, equal custom claims.
 //!  (2) presentation forward: same with `Presentation::serialize_jwt` / `JwtPresentationValidator::validate`
-//!      (holder, id, expiry, issuance, audience, custom claims).
+//!      (holder, id, expiry, issuance, audience, custom claims), for `Presentation<Jwt>` and `Presentation<Value>`
+//!      (credentials as JSON values), options written as a literal or built with `default()` + setters.
 //!  (3) credential backward : hand-assembled claim sets, every duplicated member (vc.issuer, vc.issuanceDate,
 //!      vc.expirationDate, vc.id, vc.credentialSubject.id) absent / equal / different x registered claim present /
-//!      absent, numeric dates at and beyond the ends of years 0000..9999, nbf-vs-iat precedence.
-//!  (4) presentation backward: same for vp.holder / vp.id / exp / nbf / iat.
+//!      absent, numeric dates at and beyond the ends of years 0000..9999 (and 0 / -1), nbf-vs-iat precedence, the
+//!      other members of `vc` in minimal / one-element-array / many-member shapes; an accepted claim set must yield
+//!      exactly the credential it describes (all members, not only the five carried ones).
+//!  (4) presentation backward: same for vp.holder / vp.id / exp / nbf / iat / aud, `vp.verifiableCredential` with
+//!      0 / 1 / 2 entries (also strings that are no JWT, the empty string, duplicates) and the other members of `vp`.
 //!
 //! Oracle (from the property statement): a duplicate that DISAGREES with its present registered claim, or an
 //! effective numeric date outside [0000-01-01T00:00:00Z, 9999-12-31T23:59:59Z], must be rejected; a claim set in
 //! which all duplicates agree (or are absent) and all dates are in range must be accepted with the registered
 //! values; a duplicate whose registered claim is absent may be rejected or used, but must not be silently dropped.
 //! Left open (recorded only): an out-of-range `iat` that is shadowed by `nbf`, `vc.issuanceDate` equal to `iat`
-//! but not to `nbf`, the same issuer id in the other form (URL vs object), a missing `iss`, a credential whose
-//! only subject is written as a one-element array.
+//! but not to `nbf`, the same issuer id with a different value (URL vs object, object with other members), a missing
+//! `iss`, a credential whose only subject is written as a one-element array (forward) or a `vc.credentialSubject`
+//! array (backward), an `iat` next to `nbf` in the library's own output, what `nbf` a presentation gets when
+//! `options.issuance_date` is `None` (absent or the current time), a holder that is not a plain DID (the way back is
+//! then not judged), an absent `vp.verifiableCredential`, an array-valued `aud`, a multi-subject credential (only
+//! "serialised AND a subject lost on the way back" is judged).
+//!
+//! Alphabets: every object-valued or array-valued member (issuer, credentialSubject, credentialStatus,
+//! credentialSchema, refreshService, termsOfUse, evidence, proof, @context, type, verifiableCredential, extra
+//! properties, custom claims) occurs in its minimal shape, as a one-element array where the data model allows an
+//! array, and in a shape with extra members — on the credential AND on the presentation side.
 
 use identity_core::common::{Object, Timestamp, Url};
 use identity_core::convert::FromJson;
@@ -61,15 +74,22 @@ const X1: i64 = 1_577_906_604;
 const X1_S: &str = "2020-01-01T19:23:24Z";
 const X2: i64 = 1_893_456_000;
 const X2_S: &str = "2030-01-01T00:00:00Z";
+const EPOCH_S: &str = "1970-01-01T00:00:00Z";
+const JWT1: &str = "eyJhbGciOiJFZERTQSJ9.e30.c2ln";
+const JWT2: &str = "second.jwt.credential";
+const AUD_DID: &str = "did:example:verifier";
+const AUD_URL: &str = "https://verifier.example/rp?client=1#frag";
 
 // parts
 const P_CRED_FWD: u8 = 0;
 const P_PRES_FWD: u8 = 1;
 const P_CRED_BWD: u8 = 2;
 const P_PRES_BWD: u8 = 3;
-/// `mode` for the forward parts: full alphabets / reduced alphabets (used for the complete product)
+/// `mode` for the forward parts: full alphabets (deviation-bounded) / reduced alphabets (complete product, thorough
+/// tier) / core alphabets (complete product in both tiers; presentation side only)
 const M_FULL: u8 = 0;
 const M_REDUCED: u8 = 1;
+const M_CORE: u8 = 2;
 
 #[derive(Serialize, Deserialize, Debug, Clone)]
 struct Case {
@@ -132,8 +152,9 @@ impl Acc {
   fn distinct(&self, case: &Case) {
     self.shard().lock().unwrap().1.insert(Ctx::hash_of(&(case.part, case.mode, &case.seq)));
   }
+  /// Samples are the all-default sequences of each exploration: which cases are kept does not depend on scheduling.
   fn sample(&self, ctx: &Ctx, label: &str, case: &Case) {
-    if self.samples[case.part as usize].fetch_add(1, Ordering::Relaxed) < 2 {
+    if case.seq.iter().all(|c| *c == 0) && self.samples[case.part as usize].fetch_add(1, Ordering::Relaxed) < 4 {
       ctx.sample(label, case);
     }
   }
@@ -148,28 +169,49 @@ impl Acc {
 }
 
 /// Forward parts: a choice point with `n` alternatives; in reduced mode only the alternatives in `reduced`
-/// (besides the default 0) are offered.
-fn fpt(ch: &mut Chooser, mode: u8, label: &'static str, n: usize, reduced: &[usize]) -> usize {
-  if mode == M_REDUCED {
-    if reduced.is_empty() {
-      return 0;
+/// (besides the default 0) are offered, in core mode only the first `core` alternatives.
+fn fpt(ch: &mut Chooser, mode: u8, label: &'static str, n: usize, reduced: &[usize], core: usize) -> usize {
+  match mode {
+    M_REDUCED => {
+      if reduced.is_empty() {
+        return 0;
+      }
+      let c = ch.choose(label, reduced.len() + 1);
+      if c == 0 {
+        0
+      } else {
+        reduced[c - 1]
+      }
     }
-    let c = ch.choose(label, reduced.len() + 1);
-    if c == 0 {
-      0
-    } else {
-      reduced[c - 1]
+    M_CORE => {
+      if core <= 1 {
+        0
+      } else {
+        ch.choose(label, core.min(n))
+      }
     }
-  } else {
-    ch.choose(label, n)
+    _ => ch.choose(label, n),
   }
 }
-/// Backward parts: a choice point of group `g`.
-fn bpt(ch: &mut Chooser, groups: u8, g: u8, label: &'static str, n: usize) -> usize {
-  if groups & g != 0 {
-    ch.choose(label, n)
-  } else {
+/// A numeric-date claim equal to `want` seconds (an integer, or a float with the same value).
+fn num_is(v: Option<&Value>, want: i64) -> bool {
+  match v {
+    Some(Value::Number(n)) => n.as_i64() == Some(want) || (n.as_i64().is_none() && n.as_f64() == Some(want as f64)),
+    _ => false,
+  }
+}
+/// Backward parts: a choice point of group `g`; with the `B_CORE` bit only the first `core` alternatives are offered.
+fn bpt(ch: &mut Chooser, groups: u8, g: u8, label: &'static str, n: usize, core: usize) -> usize {
+  if groups & g == 0 {
     0
+  } else if groups & B_CORE != 0 {
+    if core <= 1 {
+      0
+    } else {
+      ch.choose(label, core.min(n))
+    }
+  } else {
+    ch.choose(label, n)
   }
 }
 
@@ -209,28 +251,31 @@ fn cred_fwd(ctx: &Ctx, acc: &Acc, mode: u8, ch: &mut Chooser) {
   const E_SER: &str = "Credential::serialize_jwt";
   const E_BACK: &str = "JwtCredentialValidator::verify_signature";
   let w: &World = &WORLD;
-  let id_c = fpt(ch, mode, "id", 2, &[1]);
-  let exp_c = fpt(ch, mode, "expirationDate", 4, &[1, 3]);
-  let nbf_c = fpt(ch, mode, "issuanceDate", 3, &[1]);
-  let status_c = fpt(ch, mode, "credentialStatus", 2, &[1]);
-  let schema_c = fpt(ch, mode, "credentialSchema", 4, &[1, 3]);
-  let refresh_c = fpt(ch, mode, "refreshService", 2, &[1]);
-  let terms_c = fpt(ch, mode, "termsOfUse", 3, &[2]);
-  let evid_c = fpt(ch, mode, "evidence", 3, &[1]);
-  let proof_c = fpt(ch, mode, "proof", 2, &[1]);
-  let nt_c = fpt(ch, mode, "nonTransferable", 3, &[1, 2]);
-  let props_c = fpt(ch, mode, "extra properties", 2, &[1]);
-  let issuer_c = fpt(ch, mode, "issuer", 3, &[1, 2]);
-  let subj_c = fpt(ch, mode, "credentialSubject", 5, &[1, 2]);
-  let types_c = fpt(ch, mode, "type", 3, &[1]);
-  let ctx_c = fpt(ch, mode, "@context", 3, &[1, 2]);
-  let custom_c = fpt(ch, mode, "custom claims", 4, &[1]);
+  let id_c = fpt(ch, mode, "id", 2, &[1], 0);
+  let exp_c = fpt(ch, mode, "expirationDate", 5, &[1, 3], 0);
+  let nbf_c = fpt(ch, mode, "issuanceDate", 4, &[1], 0);
+  let status_c = fpt(ch, mode, "credentialStatus", 3, &[1, 2], 0);
+  let schema_c = fpt(ch, mode, "credentialSchema", 5, &[1, 2, 3], 0);
+  let refresh_c = fpt(ch, mode, "refreshService", 5, &[1, 2], 0);
+  let terms_c = fpt(ch, mode, "termsOfUse", 5, &[2, 4], 0);
+  let evid_c = fpt(ch, mode, "evidence", 5, &[1, 4], 0);
+  let proof_c = fpt(ch, mode, "proof", 3, &[1, 2], 0);
+  let nt_c = fpt(ch, mode, "nonTransferable", 3, &[1, 2], 0);
+  let props_c = fpt(ch, mode, "extra properties", 3, &[1, 2], 0);
+  let issuer_c = fpt(ch, mode, "issuer", 3, &[1, 2], 0);
+  let subj_c = fpt(ch, mode, "credentialSubject", 7, &[1, 2], 0);
+  let types_c = fpt(ch, mode, "type", 3, &[1], 0);
+  let ctx_c = fpt(ch, mode, "@context", 5, &[1, 2], 0);
+  let custom_c = fpt(ch, mode, "custom claims", 4, &[1], 0);
 
   let mut dm = Map::new();
   dm.insert("@context".into(), match ctx_c {
     0 => json!(BASE_CTX),
     1 => json!([BASE_CTX, "https://www.w3.org/2018/credentials/examples/v1"]),
-    _ => json!([BASE_CTX, {"@vocab": "https://example.com/vocab#"}]),
+    2 => json!([BASE_CTX, {"@vocab": "https://example.com/vocab#"}]),
+    // one-element array; the minimal context object
+    3 => json!([BASE_CTX]),
+    _ => json!([BASE_CTX, {}]),
   });
   dm.insert("type".into(), match types_c {
     0 => json!("VerifiableCredential"),
@@ -245,9 +290,9 @@ fn cred_fwd(ctx: &Ctx, acc: &Acc, mode: u8, ch: &mut Chooser) {
     _ => json!({"id": ISSUER}),
   };
   dm.insert("issuer".into(), issuer_json.clone());
-  let (nbf_s, nbf) = [(N1_S, N1), (MIN_S, MIN_TS), (MAX_S, MAX_TS)][nbf_c];
+  let (nbf_s, nbf) = [(N1_S, N1), (MIN_S, MIN_TS), (MAX_S, MAX_TS), (EPOCH_S, 0)][nbf_c];
   dm.insert("issuanceDate".into(), json!(nbf_s));
-  let exp: Option<(&str, i64)> = [None, Some((X1_S, X1)), Some((MIN_S, MIN_TS)), Some((MAX_S, MAX_TS))][exp_c];
+  let exp: Option<(&str, i64)> = [None, Some((X1_S, X1)), Some((MIN_S, MIN_TS)), Some((MAX_S, MAX_TS)), Some((EPOCH_S, 0))][exp_c];
   if let Some((s, _)) = exp {
     dm.insert("expirationDate".into(), json!(s));
   }
@@ -262,19 +307,25 @@ fn cred_fwd(ctx: &Ctx, acc: &Acc, mode: u8, ch: &mut Chooser) {
     }
     Value::Object(s)
   };
-  let (subject_json, sub): (Value, Option<&str>) = match subj_c {
-    0 => (one_subject(true, false), Some(SUBJ1)),
-    1 => (one_subject(false, true), None),
-    2 => (one_subject(true, true), Some(SUBJ1)),
-    3 => (json!([one_subject(true, true), {"id": SUBJ2, "name": "second"}]), None),
-    _ => (json!([one_subject(true, true)]), Some(SUBJ1)),
+  // (subject, expected `sub`, class): class 0 = one subject, 1 = one subject written as a one-element array, 2 = two
+  let (subject_json, sub, subj_class): (Value, Option<&str>, u8) = match subj_c {
+    0 => (one_subject(true, false), Some(SUBJ1), 0),
+    1 => (one_subject(false, true), None, 0),
+    2 => (one_subject(true, true), Some(SUBJ1), 0),
+    3 => (json!([one_subject(true, true), {"id": SUBJ2, "name": "second"}]), None, 2),
+    4 => (json!([one_subject(true, true)]), Some(SUBJ1), 1),
+    5 => (json!([one_subject(true, false)]), Some(SUBJ1), 1),
+    // a nested object that has an `id` of its own: only the subject's id moves to `sub`
+    _ => (json!({"id": SUBJ1, "spouse": {"id": SUBJ2, "name": "S"}, "ids": [{"id": SUBJ2}]}), Some(SUBJ1), 0),
   };
   dm.insert("credentialSubject".into(), subject_json);
   if id_c == 1 {
     dm.insert("id".into(), json!(ID1));
   }
-  if status_c == 1 {
-    dm.insert("credentialStatus".into(), json!({"id": "https://example.edu/status/24", "type": "CredentialStatusList2017", "extra": 1}));
+  match status_c {
+    0 => {}
+    1 => drop(dm.insert("credentialStatus".into(), json!({"id": "https://example.edu/status/24", "type": "CredentialStatusList2017", "extra": 1}))),
+    _ => drop(dm.insert("credentialStatus".into(), json!({"id": "https://example.edu/status/24", "type": "CredentialStatusList2017"}))),
   }
   let schema1 = json!({"id": "https://example.org/examples/degree.json", "type": "JsonSchemaValidator2018"});
   let schema2 = json!({"id": "https://example.org/examples/alumni.json", "type": ["JsonSchemaValidator2018", "Other"], "p": "q"});
@@ -282,35 +333,57 @@ fn cred_fwd(ctx: &Ctx, acc: &Acc, mode: u8, ch: &mut Chooser) {
     0 => {}
     1 => drop(dm.insert("credentialSchema".into(), schema1)),
     2 => drop(dm.insert("credentialSchema".into(), json!([schema1]))),
-    _ => drop(dm.insert("credentialSchema".into(), json!([schema1, schema2]))),
+    3 => drop(dm.insert("credentialSchema".into(), json!([schema1, schema2]))),
+    _ => drop(dm.insert("credentialSchema".into(), schema2)),
   }
-  if refresh_c == 1 {
-    dm.insert("refreshService".into(), json!({"id": "https://example.edu/refresh/3732", "type": "ManualRefreshService2018"}));
+  let refresh1 = json!({"id": "https://example.edu/refresh/3732", "type": "ManualRefreshService2018"});
+  let refresh2 = json!({"id": "https://example.edu/refresh/2", "type": ["ManualRefreshService2018", "R"], "validAfter": "2020-01-01T00:00:00Z", "o": {"k": []}});
+  match refresh_c {
+    0 => {}
+    1 => drop(dm.insert("refreshService".into(), refresh1)),
+    2 => drop(dm.insert("refreshService".into(), json!([refresh1]))),
+    3 => drop(dm.insert("refreshService".into(), refresh2)),
+    _ => drop(dm.insert("refreshService".into(), json!([refresh1, refresh2]))),
   }
   let policy1 = json!({"type": "IssuerPolicy", "id": "https://example.com/policies/credential/4", "profile": "https://example.com/profiles/credential"});
   match terms_c {
     0 => {}
     1 => drop(dm.insert("termsOfUse".into(), policy1)),
-    _ => drop(dm.insert("termsOfUse".into(), json!([policy1, {"type": ["HolderPolicy"], "prohibition": [{"assigner": ISSUER}]}]))),
+    2 => drop(dm.insert("termsOfUse".into(), json!([policy1, {"type": ["HolderPolicy"], "prohibition": [{"assigner": ISSUER}]}]))),
+    3 => drop(dm.insert("termsOfUse".into(), json!({"type": "IssuerPolicy"}))),
+    _ => drop(dm.insert("termsOfUse".into(), json!([policy1]))),
   }
   let evidence1 = json!({"id": "https://example.edu/evidence/f2aeec97", "type": ["DocumentVerification"], "verifier": "https://example.edu/issuers/14"});
   match evid_c {
     0 => {}
     1 => drop(dm.insert("evidence".into(), evidence1)),
-    _ => drop(dm.insert("evidence".into(), json!([evidence1, {"type": "SupportingActivity", "documentPresence": "Digital"}]))),
+    2 => drop(dm.insert("evidence".into(), json!([evidence1, {"type": "SupportingActivity", "documentPresence": "Digital"}]))),
+    3 => drop(dm.insert("evidence".into(), json!({"type": "SupportingActivity"}))),
+    _ => drop(dm.insert("evidence".into(), json!([evidence1]))),
   }
-  if proof_c == 1 {
-    dm.insert("proof".into(), json!({"type": "RsaSignature2018", "created": "2017-06-18T21:19:10Z", "jws": "eyJhb...dBBPM"}));
+  match proof_c {
+    0 => {}
+    1 => drop(dm.insert("proof".into(), json!({"type": "RsaSignature2018", "created": "2017-06-18T21:19:10Z", "jws": "eyJhb...dBBPM"}))),
+    _ => drop(dm.insert("proof".into(), json!({"type": "RsaSignature2018"}))),
   }
   match nt_c {
     0 => {}
     1 => drop(dm.insert("nonTransferable".into(), json!(false))),
     _ => drop(dm.insert("nonTransferable".into(), json!(true))),
   }
-  if props_c == 1 {
-    dm.insert("name".into(), json!("extra"));
-    dm.insert("nested".into(), json!({"deep": [1, 2.5, "s", null, true]}));
-    dm.insert("big".into(), json!(u64::MAX));
+  match props_c {
+    0 => {}
+    1 => {
+      dm.insert("name".into(), json!("extra"));
+      dm.insert("nested".into(), json!({"deep": [1, 2.5, "s", null, true]}));
+      dm.insert("big".into(), json!(u64::MAX));
+    }
+    // extra properties named like registered claims / presentation members: they belong to the credential and stay in `vc`
+    _ => {
+      for (k, v) in [("iss", json!("did:example:other")), ("sub", json!("did:example:other")), ("jti", json!("urn:x")), ("nbf", json!(7)), ("exp", json!(5)), ("iat", json!(3)), ("vc", json!({"id": ID2})), ("holder", json!(HOLDER))] {
+        dm.insert(k.into(), v);
+      }
+    }
   }
   let custom: Option<Object> = match custom_c {
     0 => None,
@@ -327,6 +400,10 @@ fn cred_fwd(ctx: &Ctx, acc: &Acc, mode: u8, ch: &mut Chooser) {
     Ok(c) => c,
     Err(e) => vx::ctx::machinery_exit(&format!("C07 generator produced a credential the data model rejects: {e}: {dm}")),
   };
+  let back_of = |s: &str| {
+    let jwt = token(&format!("{ISSUER}#k1"), s);
+    guard(|| w.cred_validator.verify_signature::<CoreDocument, Object>(&jwt, std::slice::from_ref(&w.issuer_doc), &JwsVerificationOptions::default()))
+  };
   if custom_c == 3 {
     let label = match guard(|| cred.serialize_jwt(custom.clone())) {
       Err(p) => {
@@ -334,17 +411,14 @@ fn cred_fwd(ctx: &Ctx, acc: &Acc, mode: u8, ch: &mut Chooser) {
         "panic".to_string()
       }
       Ok(Err(_)) => "serialize-refused".to_string(),
-      Ok(Ok(s)) => {
-        let jwt = token(&format!("{ISSUER}#k1"), &s);
-        match guard(|| w.cred_validator.verify_signature::<CoreDocument, Object>(&jwt, std::slice::from_ref(&w.issuer_doc), &JwsVerificationOptions::default())) {
-          Err(p) => {
-            ctx.violation(&format!("{E_BACK}|{}", p.key()), &format!("{}: {s}", p.msg), &case);
-            "panic".to_string()
-          }
-          Ok(Err(e)) => format!("serialised, rejected on the way back ({})", err_name(&e)),
-          Ok(Ok(d)) => format!("serialised, accepted back, credential {}", if d.credential == cred { "equal" } else { "differs" }),
+      Ok(Ok(s)) => match back_of(&s) {
+        Err(p) => {
+          ctx.violation(&format!("{E_BACK}|{}", p.key()), &format!("{}: {s}", p.msg), &case);
+          "panic".to_string()
         }
-      }
+        Ok(Err(e)) => format!("serialised, rejected on the way back ({})", err_name(&e)),
+        Ok(Ok(d)) => format!("serialised, accepted back, credential {}", if d.credential == cred { "equal" } else { "differs" }),
+      },
     };
     return acc.outcome(format!("cred-fwd:custom claim named exp: {label} [open:colliding-custom-claim]"));
   }
@@ -356,13 +430,31 @@ fn cred_fwd(ctx: &Ctx, acc: &Acc, mode: u8, ch: &mut Chooser) {
     }
     Ok(r) => r,
   };
-  let claims_s = match (ser, subj_c) {
-    (Err(_), 3) => return acc.outcome("cred-fwd:two-subjects-refused".into()),
-    (Ok(_), 3) => {
-      acc.outcome("cred-fwd:two-subjects-serialised".into());
-      return ctx.violation(&format!("{E_SER}|two-subjects|serialised"), &format!("{dm}"), &case);
+  let claims_s = match (ser, subj_class) {
+    (Err(_), 2) => return acc.outcome("cred-fwd:two-subjects-refused".into()),
+    (Ok(s), 2) => {
+      // The statement speaks about single-subject credentials only. Refusing is the documented behaviour
+      // (`Error::MoreThanOneSubjectInJwt`); an encoding that keeps both subjects would not break the property, one that
+      // silently loses a subject does.
+      let label = match back_of(&s) {
+        Err(p) => {
+          ctx.violation(&format!("{E_BACK}|{}", p.key()), &format!("{}: {s}", p.msg), &case);
+          "panic"
+        }
+        Ok(Err(_)) => "rejected on the way back",
+        Ok(Ok(d)) if d.credential == cred => "accepted back equal",
+        Ok(Ok(d)) => {
+          ctx.violation(
+            &format!("{E_SER}|two-subjects|serialised-and-subject-lost"),
+            &format!("credential {dm} came back as {}; claims {s}", serde_json::to_string(&d.credential).unwrap_or_default()),
+            &case,
+          );
+          "accepted back DIFFERENT"
+        }
+      };
+      return acc.outcome(format!("cred-fwd:two-subjects-serialised, {label} [open:multi-subject]"));
     }
-    (Err(e), 4) => return acc.outcome(format!("cred-fwd:one-element-subject-array-refused({e}) [open]")),
+    (Err(e), 1) => return acc.outcome(format!("cred-fwd:one-element-subject-array-refused({e}) [open]")),
     (Err(e), _) => {
       acc.outcome("cred-fwd:single-subject-refused".into());
       return ctx.violation(&format!("{E_SER}|single-subject|refused"), &format!("{e}: {dm}"), &case);
@@ -374,26 +466,38 @@ fn cred_fwd(ctx: &Ctx, acc: &Acc, mode: u8, ch: &mut Chooser) {
     Err(e) => return ctx.violation(&format!("{E_SER}|output-not-json"), &format!("{e}: {claims_s}"), &case),
   };
   let mut carried_ok = true;
-  let mut expect_claim = |name: &'static str, want: Option<Value>| {
-    if claims.get(name) != want.as_ref() {
-      carried_ok = false;
-      ctx.violation(
-        &format!("{E_SER}|registered-claim-wrong|{name}"),
-        &format!("claim {name} = {:?}, expected {want:?}; credential {dm}; claims {claims_s}", claims.get(name)),
-        &case,
-      );
-    }
+  let mut claim_wrong = |name: &'static str, want: String| {
+    carried_ok = false;
+    ctx.violation(
+      &format!("{E_SER}|registered-claim-wrong|{name}"),
+      &format!("claim {name} = {:?}, expected {want}; credential {dm}; claims {claims_s}", claims.get(name)),
+      &case,
+    );
   };
-  expect_claim("iss", Some(issuer_json.clone()));
-  expect_claim("sub", sub.map(|s| json!(s)));
-  expect_claim("jti", if id_c == 1 { Some(json!(ID1)) } else { None });
-  expect_claim("nbf", Some(json!(nbf)));
-  expect_claim("exp", exp.map(|(_, u)| json!(u)));
-  if let Some(iat) = claims.get("iat") {
-    if iat != &json!(nbf) {
-      expect_claim("iat", Some(json!(nbf)));
-    }
+  if claims.get("iss") != Some(&issuer_json) {
+    claim_wrong("iss", issuer_json.to_string());
   }
+  if claims.get("sub") != sub.map(|s| json!(s)).as_ref() {
+    claim_wrong("sub", format!("{sub:?}"));
+  }
+  let want_jti = if id_c == 1 { Some(json!(ID1)) } else { None };
+  if claims.get("jti") != want_jti.as_ref() {
+    claim_wrong("jti", format!("{want_jti:?}"));
+  }
+  if !num_is(claims.get("nbf"), nbf) {
+    claim_wrong("nbf", nbf.to_string());
+  }
+  match exp {
+    Some((_, u)) if !num_is(claims.get("exp"), u) => claim_wrong("exp", u.to_string()),
+    None if claims.get("exp").is_some() => claim_wrong("exp", "no exp claim".into()),
+    _ => {}
+  }
+  // an `iat` next to `nbf` is not excluded by the statement (the issuance date is the `nbf`): recorded
+  let iat_tag = match claims.get("iat") {
+    None => "",
+    Some(v) if num_is(Some(v), nbf) => " [open:iat-equal-to-nbf-emitted]",
+    Some(_) => " [open:iat-different-from-nbf-emitted]",
+  };
   let vc = claims.get("vc").cloned().unwrap_or(Value::Null);
   if !vc.is_object() {
     carried_ok = false;
@@ -424,9 +528,8 @@ fn cred_fwd(ctx: &Ctx, acc: &Acc, mode: u8, ch: &mut Chooser) {
     }
   }
   // ---- back
-  let jwt = token(&format!("{ISSUER}#k1"), &claims_s);
-  let back = guard(|| w.cred_validator.verify_signature::<CoreDocument, Object>(&jwt, std::slice::from_ref(&w.issuer_doc), &JwsVerificationOptions::default()));
-  let open = if subj_c == 4 { " [open:one-element-subject-array]" } else { "" };
+  let back = back_of(&claims_s);
+  let open = if subj_class == 1 { " [open:one-element-subject-array]" } else { "" };
   match back {
     Err(p) => {
       acc.outcome("cred-fwd:panic".into());
@@ -434,7 +537,7 @@ fn cred_fwd(ctx: &Ctx, acc: &Acc, mode: u8, ch: &mut Chooser) {
     }
     Ok(Err(e)) => {
       acc.outcome(format!("cred-fwd:own-claims-rejected:{}{open}", err_name(&e)));
-      if subj_c != 4 {
+      if subj_class != 1 {
         ctx.violation(&format!("{E_BACK}|own-claims-rejected|{}", err_name(&e)), &format!("{e}: credential {dm}; claims {claims_s}"), &case)
       }
     }
@@ -443,8 +546,8 @@ fn cred_fwd(ctx: &Ctx, acc: &Acc, mode: u8, ch: &mut Chooser) {
       acc.sample(ctx, "credential-forward", &case);
       let same = dec.credential == cred;
       let same_custom = custom_norm(&dec.custom_claims) == custom_norm(&custom);
-      acc.outcome(format!("cred-fwd:{}{}{open}", if same && same_custom { "round-trip-equal" } else { "round-trip-differs" }, if carried_ok { "" } else { "+claims-wrong" }));
-      if !same && subj_c != 4 {
+      acc.outcome(format!("cred-fwd:{}{}{open}{iat_tag}", if same && same_custom { "round-trip-equal" } else { "round-trip-differs" }, if carried_ok { "" } else { "+claims-wrong" }));
+      if !same && subj_class != 1 {
         let (a, b) = (serde_json::to_value(&cred).unwrap_or(Value::Null), serde_json::to_value(&dec.credential).unwrap_or(Value::Null));
         ctx.violation(
           &format!("{E_SER}+{E_BACK}|round-trip-differs|{}", first_diff(&a, &b)),
@@ -464,68 +567,188 @@ fn cred_fwd(ctx: &Ctx, acc: &Acc, mode: u8, ch: &mut Chooser) {
 }
 
 // ================================================================== (2) presentation forward
+/// A JSON-LD credential object as an entry of `verifiableCredential` (generic `CRED`): shape with many members.
+fn embedded_credential() -> Value {
+  json!({"@context": [BASE_CTX], "type": ["VerifiableCredential"], "issuer": {"id": ISSUER}, "issuanceDate": N1_S,
+         "credentialSubject": {"id": SUBJ1}, "id": ID2, "holder": "did:example:x", "proof": {"type": "P"}})
+}
+
 fn pres_fwd(ctx: &Ctx, acc: &Acc, mode: u8, ch: &mut Chooser) {
+  // entries of `verifiableCredential` typed as `Jwt` strings (the library's default) or as arbitrary JSON values
+  let kind_c = fpt(ch, mode, "credential representation (CRED)", 2, &[1], 0);
+  if kind_c == 0 {
+    pres_fwd_typed::<Jwt>(ctx, acc, mode, ch, false)
+  } else {
+    pres_fwd_typed::<Value>(ctx, acc, mode, ch, true)
+  }
+}
+
+fn pres_fwd_typed<CRED>(ctx: &Ctx, acc: &Acc, mode: u8, ch: &mut Chooser, json_kind: bool)
+where
+  CRED: ToOwned<Owned = CRED> + Serialize + serde::de::DeserializeOwned + Clone + PartialEq + std::fmt::Debug,
+{
   const E_SER: &str = "Presentation::serialize_jwt";
   const E_BACK: &str = "JwtPresentationValidator::validate";
   let w: &World = &WORLD;
-  let id_c = fpt(ch, mode, "id", 2, &[1]);
-  let creds_c = fpt(ch, mode, "verifiableCredential", 3, &[1, 2]);
-  let refresh_c = fpt(ch, mode, "refreshService", 2, &[1]);
-  let terms_c = fpt(ch, mode, "termsOfUse", 3, &[1, 2]);
-  let proof_c = fpt(ch, mode, "proof", 2, &[1]);
-  let props_c = fpt(ch, mode, "extra properties", 2, &[1]);
-  let types_c = fpt(ch, mode, "type", 2, &[1]);
-  let ctx_c = fpt(ch, mode, "@context", 2, &[1]);
-  let exp_c = fpt(ch, mode, "options.expiration_date", 4, &[1, 2, 3]);
-  let nbf_c = fpt(ch, mode, "options.issuance_date", 4, &[1, 2, 3]);
-  let aud_c = fpt(ch, mode, "options.audience", 2, &[1]);
-  let custom_c = fpt(ch, mode, "options.custom_claims", 2, &[1]);
+  let id_c = fpt(ch, mode, "id", 2, &[1], 2);
+  let holder_c = fpt(ch, mode, "holder", 3, &[1], 0);
+  let creds_c = fpt(ch, mode, "verifiableCredential", if json_kind { 6 } else { 7 }, &[1, 2, 3], 3);
+  let refresh_c = fpt(ch, mode, "refreshService", 5, &[1, 2], 2);
+  let terms_c = fpt(ch, mode, "termsOfUse", 5, &[1, 2, 4], 3);
+  let proof_c = fpt(ch, mode, "proof", 3, &[1, 2], 2);
+  let props_c = fpt(ch, mode, "extra properties", 3, &[1, 2], 2);
+  let types_c = fpt(ch, mode, "type", 3, &[1, 2], 2);
+  let ctx_c = fpt(ch, mode, "@context", 5, &[1, 3], 2);
+  let built_c = fpt(ch, mode, "options built with default()+setters", 2, &[1], 0);
+  let exp_c = fpt(ch, mode, "options.expiration_date", 5, &[1, 2, 3, 4], 4);
+  let nbf_c = fpt(ch, mode, "options.issuance_date", 5, &[1, 2, 3, 4], 4);
+  let aud_c = fpt(ch, mode, "options.audience", 3, &[1, 2], 2);
+  let custom_c = fpt(ch, mode, "options.custom_claims", 4, &[1, 2], 2);
 
   let mut dm = Map::new();
-  dm.insert("@context".into(), if ctx_c == 0 { json!(BASE_CTX) } else { json!([BASE_CTX, "https://example.com/ctx/v1"]) });
-  dm.insert("type".into(), if types_c == 0 { json!("VerifiablePresentation") } else { json!(["VerifiablePresentation", "ExtraPresentation"]) });
-  dm.insert("holder".into(), json!(HOLDER));
-  match creds_c {
-    0 => drop(dm.insert("verifiableCredential".into(), json!(["eyJhbGciOiJFZERTQSJ9.e30.c2ln"]))),
-    1 => {}
-    _ => drop(dm.insert("verifiableCredential".into(), json!(["eyJhbGciOiJFZERTQSJ9.e30.c2ln", "second.jwt.credential"]))),
+  dm.insert("@context".into(), match ctx_c {
+    0 => json!(BASE_CTX),
+    1 => json!([BASE_CTX, "https://example.com/ctx/v1"]),
+    2 => json!([BASE_CTX, {"@vocab": "https://example.com/vocab#"}]),
+    3 => json!([BASE_CTX]),
+    _ => json!([BASE_CTX, {}]),
+  });
+  dm.insert("type".into(), match types_c {
+    0 => json!("VerifiablePresentation"),
+    1 => json!(["VerifiablePresentation", "ExtraPresentation"]),
+    _ => json!(["VerifiablePresentation"]),
+  });
+  // holder: the holder's DID; an https URL; a DID URL with query and fragment (the `holder` member is a URL)
+  let holder = [HOLDER, "https://holder.example/profile?u=1", "did:example:holder?service=files#k1"][holder_c];
+  dm.insert("holder".into(), json!(holder));
+  let creds: Option<Value> = if !json_kind {
+    match creds_c {
+      0 => Some(json!([JWT1])),
+      1 => None,
+      2 => Some(json!([JWT1, JWT2])),
+      // strings that do not look like a JWT, the empty string, the same entry twice, the other order
+      3 => Some(json!(["not a jwt"])),
+      4 => Some(json!([""])),
+      5 => Some(json!([JWT1, JWT1])),
+      _ => Some(json!([JWT2, JWT1])),
+    }
+  } else {
+    match creds_c {
+      0 => Some(json!([JWT1])),
+      1 => None,
+      // the minimal object, an object with many members (some named like presentation members), mixed, twice
+      2 => Some(json!([{}])),
+      3 => Some(json!([embedded_credential()])),
+      4 => Some(json!([embedded_credential(), JWT1])),
+      _ => Some(json!([embedded_credential(), embedded_credential()])),
+    }
+  };
+  if let Some(c) = creds {
+    dm.insert("verifiableCredential".into(), c);
   }
   if id_c == 1 {
     dm.insert("id".into(), json!(ID1));
   }
-  if refresh_c == 1 {
-    dm.insert("refreshService".into(), json!({"id": "https://example.edu/refresh/3732", "type": "ManualRefreshService2018"}));
+  let refresh1 = json!({"id": "https://example.edu/refresh/3732", "type": "ManualRefreshService2018"});
+  let refresh2 = json!({"id": "https://example.edu/refresh/2", "type": ["ManualRefreshService2018", "R"], "validAfter": "2020-01-01T00:00:00Z", "o": {"k": []}});
+  match refresh_c {
+    0 => {}
+    1 => drop(dm.insert("refreshService".into(), refresh1)),
+    2 => drop(dm.insert("refreshService".into(), json!([refresh1]))),
+    3 => drop(dm.insert("refreshService".into(), refresh2)),
+    _ => drop(dm.insert("refreshService".into(), json!([refresh1, refresh2]))),
   }
   let policy1 = json!({"type": "HolderPolicy", "id": "https://example.com/policies/presentation/4"});
   match terms_c {
     0 => {}
     1 => drop(dm.insert("termsOfUse".into(), policy1)),
-    _ => drop(dm.insert("termsOfUse".into(), json!([policy1, {"type": ["Other"], "k": [1, 2]}]))),
+    2 => drop(dm.insert("termsOfUse".into(), json!([policy1, {"type": ["Other"], "k": [1, 2]}]))),
+    3 => drop(dm.insert("termsOfUse".into(), json!({"type": "HolderPolicy"}))),
+    _ => drop(dm.insert("termsOfUse".into(), json!([policy1]))),
   }
-  if proof_c == 1 {
-    dm.insert("proof".into(), json!({"type": "RsaSignature2018", "created": "2017-06-18T21:19:10Z", "jws": "eyJhb...dBBPM"}));
+  match proof_c {
+    0 => {}
+    1 => drop(dm.insert("proof".into(), json!({"type": "RsaSignature2018", "created": "2017-06-18T21:19:10Z", "jws": "eyJhb...dBBPM"}))),
+    _ => drop(dm.insert("proof".into(), json!({"type": "RsaSignature2018"}))),
   }
-  if props_c == 1 {
-    dm.insert("name".into(), json!("extra"));
-    dm.insert("nested".into(), json!({"deep": [1, 2.5, "s", null, true]}));
+  match props_c {
+    0 => {}
+    1 => {
+      dm.insert("name".into(), json!("extra"));
+      dm.insert("nested".into(), json!({"deep": [1, 2.5, "s", null, true]}));
+    }
+    // extra properties named like registered claims / credential members: they belong to the presentation, stay in `vp`
+    _ => {
+      for (k, v) in [("iss", json!("did:example:other")), ("jti", json!("urn:x")), ("nbf", json!(7)), ("exp", json!(5)), ("iat", json!(3)), ("aud", json!("did:example:a")), ("vp", json!({"id": ID2})), ("issuer", json!(ISSUER)), ("big", json!(u64::MAX))] {
+        dm.insert(k.into(), v);
+      }
+    }
   }
-  let exp: Option<i64> = [None, Some(X1), Some(MIN_TS), Some(MAX_TS)][exp_c];
-  let nbf: Option<i64> = [Some(N1), None, Some(MIN_TS), Some(MAX_TS)][nbf_c];
-  let aud: Option<&str> = if aud_c == 1 { Some("did:example:verifier") } else { None };
-  let custom: Option<Object> = if custom_c == 1 { Some(Object::from_json_value(json!({"x": 1, "y": {"z": [true]}})).expect("object")) } else { None };
-  let options = JwtPresentationOptions {
-    expiration_date: exp.map(fx::ts),
-    issuance_date: nbf.map(fx::ts),
-    audience: aud.map(|a| Url::parse(a).expect("aud url")),
-    custom_claims: custom.clone(),
+  let exp: Option<i64> = [None, Some(X1), Some(MIN_TS), Some(MAX_TS), Some(0)][exp_c];
+  let nbf_opt: Option<i64> = [Some(N1), None, Some(MIN_TS), Some(MAX_TS), Some(0)][nbf_c];
+  let aud: Option<&str> = [None, Some(AUD_DID), Some(AUD_URL)][aud_c];
+  let (custom, custom_collides): (Option<Object>, bool) = match custom_c {
+    0 => (None, false),
+    1 => (Some(Object::from_json_value(json!({"x": 1, "y": {"z": [true]}})).expect("object")), false),
+    2 => (Some(Object::new()), false),
+    // a custom claim whose name collides with a registered claim: caller error, recorded only
+    _ => (Some(Object::from_json_value(json!({"exp": 1})).expect("object")), true),
+  };
+  // `JwtPresentationOptions::default()` is documented to set the issuance date to the current time (owned clock)
+  let (options, nbf): (JwtPresentationOptions, Option<i64>) = if built_c == 1 {
+    let mut o = JwtPresentationOptions::default();
+    if let Some(e) = exp {
+      o = o.expiration_date(fx::ts(e));
+    }
+    if let Some(n) = nbf_opt {
+      o = o.issuance_date(fx::ts(n));
+    }
+    if let Some(a) = aud {
+      o = o.audience(Url::parse(a).expect("aud url"));
+    }
+    o.custom_claims = custom.clone();
+    (o, Some(nbf_opt.unwrap_or(fx::NOW)))
+  } else {
+    (
+      JwtPresentationOptions {
+        expiration_date: exp.map(fx::ts),
+        issuance_date: nbf_opt.map(fx::ts),
+        audience: aud.map(|a| Url::parse(a).expect("aud url")),
+        custom_claims: custom.clone(),
+      },
+      nbf_opt,
+    )
   };
 
   let case = Case { part: P_PRES_FWD, mode, seq: ch.seq() };
   let dm = Value::Object(dm);
-  let pres: Presentation<Jwt, Object> = match Presentation::from_json_value(dm.clone()) {
+  let pres: Presentation<CRED, Object> = match Presentation::from_json_value(dm.clone()) {
     Ok(p) => p,
     Err(e) => vx::ctx::machinery_exit(&format!("C07 generator produced a presentation the data model rejects: {e}: {dm}")),
   };
+  let vopts = JwtPresentationValidationOptions::new().earliest_expiry_date(fx::ts(MIN_TS)).latest_issuance_date(fx::ts(MAX_TS));
+  let back_of = |s: &str| {
+    let jwt = token(&format!("{HOLDER}#k1"), s);
+    guard(|| w.pres_validator.validate::<CoreDocument, CRED, Object>(&jwt, &w.holder_doc, &vopts))
+  };
+  if custom_collides {
+    let label = match guard(|| pres.serialize_jwt(&options)) {
+      Err(p) => {
+        ctx.violation(&format!("{E_SER}|{}", p.key()), &format!("{}: {dm}", p.msg), &case);
+        "panic".to_string()
+      }
+      Ok(Err(_)) => "serialize-refused".to_string(),
+      Ok(Ok(s)) => match back_of(&s) {
+        Err(p) => {
+          ctx.violation(&format!("{E_BACK}|{}", p.key()), &format!("{}: {s}", p.msg), &case);
+          "panic".to_string()
+        }
+        Ok(Err(_)) => "serialised, rejected on the way back".to_string(),
+        Ok(Ok(d)) => format!("serialised, accepted back, presentation {}", if d.presentation == pres { "equal" } else { "differs" }),
+      },
+    };
+    return acc.outcome(format!("pres-fwd:custom claim named exp: {label} [open:colliding-custom-claim]"));
+  }
   let claims_s = match guard(|| pres.serialize_jwt(&options)) {
     Err(p) => {
       acc.outcome("pres-fwd:panic".into());
@@ -542,25 +765,61 @@ fn pres_fwd(ctx: &Ctx, acc: &Acc, mode: u8, ch: &mut Chooser) {
     Err(e) => return ctx.violation(&format!("{E_SER}|output-not-json"), &format!("{e}: {claims_s}"), &case),
   };
   let mut carried_ok = true;
-  let mut expect_claim = |name: &'static str, want: Option<Value>| {
-    if claims.get(name) != want.as_ref() {
-      carried_ok = false;
-      ctx.violation(
-        &format!("{E_SER}|registered-claim-wrong|{name}"),
-        &format!("claim {name} = {:?}, expected {want:?}; presentation {dm}; claims {claims_s}", claims.get(name)),
-        &case,
-      );
-    }
+  let mut claim_wrong = |name: &'static str, want: String| {
+    carried_ok = false;
+    ctx.violation(
+      &format!("{E_SER}|registered-claim-wrong|{name}"),
+      &format!("claim {name} = {:?}, expected {want}; presentation {dm} options {options:?}; claims {claims_s}", claims.get(name)),
+      &case,
+    );
   };
-  expect_claim("iss", Some(json!(HOLDER)));
-  expect_claim("jti", if id_c == 1 { Some(json!(ID1)) } else { None });
-  expect_claim("nbf", nbf.map(|n| json!(n)));
-  expect_claim("exp", exp.map(|n| json!(n)));
-  expect_claim("aud", aud.map(|a| json!(a)));
-  if let Some(iat) = claims.get("iat") {
-    if Some(iat) != nbf.map(|n| json!(n)).as_ref() {
-      expect_claim("iat", nbf.map(|n| json!(n)));
+  // `iss` is the holder URL as the data model writes it
+  let holder_json = serde_json::to_value(&pres.holder).unwrap_or(Value::Null);
+  if claims.get("iss") != Some(&holder_json) {
+    claim_wrong("iss", holder_json.to_string());
+  }
+  let want_jti = if id_c == 1 { Some(json!(ID1)) } else { None };
+  if claims.get("jti") != want_jti.as_ref() {
+    claim_wrong("jti", format!("{want_jti:?}"));
+  }
+  // issuance: a given date is carried in `nbf`; with `issuance_date: None` in a hand-written options value the
+  // documentation ("Default: current datetime") allows both no claim and the current time
+  let mut tags = String::new();
+  let emitted_issuance: Option<i64> = match nbf {
+    Some(n) => {
+      if !num_is(claims.get("nbf"), n) {
+        claim_wrong("nbf", n.to_string());
+      }
+      Some(n)
     }
+    None => match claims.get("nbf") {
+      None => {
+        tags.push_str(" [open:no-issuance-date-given:no-nbf]");
+        None
+      }
+      Some(v) if num_is(Some(v), fx::NOW) => {
+        tags.push_str(" [open:no-issuance-date-given:nbf-now]");
+        Some(fx::NOW)
+      }
+      Some(_) => {
+        claim_wrong("nbf", format!("no nbf, or the current time {}", fx::NOW));
+        None
+      }
+    },
+  };
+  match exp {
+    Some(u) if !num_is(claims.get("exp"), u) => claim_wrong("exp", u.to_string()),
+    None if claims.get("exp").is_some() => claim_wrong("exp", "no exp claim".into()),
+    _ => {}
+  }
+  let aud_json = options.audience.as_ref().map(|u| serde_json::to_value(u).unwrap_or(Value::Null));
+  if claims.get("aud") != aud_json.as_ref() {
+    claim_wrong("aud", format!("{aud_json:?}"));
+  }
+  match (claims.get("iat"), emitted_issuance) {
+    (None, _) => {}
+    (Some(v), Some(n)) if num_is(Some(v), n) => tags.push_str(" [open:iat-equal-to-nbf-emitted]"),
+    (Some(_), _) => tags.push_str(" [open:iat-different-from-nbf-emitted]"),
   }
   let vp = claims.get("vp").cloned().unwrap_or(Value::Null);
   if !vp.is_object() {
@@ -586,15 +845,18 @@ fn pres_fwd(ctx: &Ctx, acc: &Acc, mode: u8, ch: &mut Chooser) {
     }
   }
   // ---- back (date bounds wide open: this part is about conversion, C03 is about the bounds)
-  let jwt = token(&format!("{HOLDER}#k1"), &claims_s);
-  let vopts = JwtPresentationValidationOptions::new().earliest_expiry_date(fx::ts(MIN_TS)).latest_issuance_date(fx::ts(MAX_TS));
-  match guard(|| w.pres_validator.validate::<CoreDocument, Jwt, Object>(&jwt, &w.holder_doc, &vopts)) {
+  match back_of(&claims_s) {
     Err(p) => {
       acc.outcome("pres-fwd:panic".into());
       ctx.violation(&format!("{E_BACK}|{}", p.key()), &format!("{}: {claims_s}", p.msg), &case)
     }
     Ok(Err(e)) => {
       let n = e.presentation_validation_errors.iter().map(err_name).collect::<Vec<_>>().join(",");
+      if holder_c != 0 {
+        // the validator identifies the holder's document by a plain DID in `iss`: other holder forms are the
+        // validator's business, not the conversion's
+        return acc.outcome(format!("pres-fwd:holder is not a plain DID: rejected on the way back ({n}){} [open:holder-form]", if carried_ok { "" } else { "+claims-wrong" }));
+      }
       acc.outcome(format!("pres-fwd:own-claims-rejected:{n}"));
       ctx.violation(&format!("{E_BACK}|own-claims-rejected|{n}"), &format!("{e}: presentation {dm}; claims {claims_s}"), &case)
     }
@@ -609,16 +871,16 @@ fn pres_fwd(ctx: &Ctx, acc: &Acc, mode: u8, ch: &mut Chooser) {
       if dec.expiration_date.map(|t| t.to_unix()) != exp {
         diffs.push("expiration_date".into());
       }
-      if dec.issuance_date.map(|t| t.to_unix()) != nbf {
+      if dec.issuance_date.map(|t| t.to_unix()) != emitted_issuance {
         diffs.push("issuance_date".into());
       }
-      if dec.aud.as_ref().map(|u| u.as_str()) != aud {
+      if dec.aud != options.audience {
         diffs.push("aud".into());
       }
       if custom_norm(&dec.custom_claims) != custom_norm(&custom) {
         diffs.push("custom-claims".into());
       }
-      acc.outcome(format!("pres-fwd:{}{}", if diffs.is_empty() { "round-trip-equal" } else { "round-trip-differs" }, if carried_ok { "" } else { "+claims-wrong" }));
+      acc.outcome(format!("pres-fwd:{}{}{tags}", if diffs.is_empty() { "round-trip-equal" } else { "round-trip-differs" }, if carried_ok { "" } else { "+claims-wrong" }));
       for d in diffs {
         ctx.violation(
           &format!("{E_SER}+{E_BACK}|round-trip-differs|{d}"),
@@ -640,6 +902,7 @@ struct Judge {
 }
 
 /// numeric date alternatives shared by exp / nbf
+const DATE_ALTS: usize = 10;
 fn date_alt(c: usize, typical: i64) -> Option<i64> {
   match c {
     0 => Some(typical),
@@ -649,9 +912,13 @@ fn date_alt(c: usize, typical: i64) -> Option<i64> {
     4 => Some(MAX_TS),
     5 => Some(MAX_TS + 1),
     6 => Some(i64::MIN),
-    _ => Some(i64::MAX),
+    7 => Some(i64::MAX),
+    8 => Some(0),
+    _ => Some(-1),
   }
 }
+/// `iat` alternatives: absent, typical, another value, beyond either end, at either end
+const IAT_ALTS: [Option<i64>; 7] = [None, Some(N1), Some(N2), Some(MAX_TS + 1), Some(MIN_TS - 1), Some(MAX_TS), Some(MIN_TS)];
 fn in_range(t: i64) -> bool {
   (MIN_TS..=MAX_TS).contains(&t)
 }
@@ -661,36 +928,88 @@ const B_NBF: u8 = 2;
 const B_EXP: u8 = 4;
 const B_ID: u8 = 8;
 const B_SUB: u8 = 16;
-const B_ALL: u8 = 31;
+const B_REST: u8 = 32;
+const B_ALL: u8 = 63;
+/// core alphabets only (used for the complete product over all groups of the credential side)
+const B_CORE: u8 = 64;
+
+/// The other members of a `vc` (none of them is carried in a registered claim), in minimal / one-element-array /
+/// many-member shapes.
+fn rest_of_vc(c: usize, vc: &mut Map<String, Value>) {
+  let schema1 = json!({"id": "https://example.org/examples/degree.json", "type": "JsonSchemaValidator2018"});
+  let policy1 = json!({"type": "IssuerPolicy", "id": "https://example.com/policies/credential/4", "profile": "https://example.com/profiles/credential"});
+  match c {
+    0 => {}
+    1 => {
+      vc.insert("@context".into(), json!([BASE_CTX]));
+      vc.insert("type".into(), json!(["VerifiableCredential"]));
+      vc.insert("credentialStatus".into(), json!({"id": "https://example.edu/status/24", "type": "CredentialStatusList2017"}));
+      vc.insert("credentialSchema".into(), json!([schema1]));
+      vc.insert("refreshService".into(), json!({"id": "https://example.edu/refresh/3732", "type": "ManualRefreshService2018"}));
+      vc.insert("termsOfUse".into(), json!([policy1, {"type": ["HolderPolicy"]}]));
+      vc.insert("evidence".into(), json!({"type": "SupportingActivity"}));
+      vc.insert("proof".into(), json!({"type": "RsaSignature2018", "jws": "eyJhb...dBBPM"}));
+      vc.insert("nonTransferable".into(), json!(false));
+      vc.insert("name".into(), json!("extra"));
+      vc.insert("exp".into(), json!(5));
+    }
+    _ => {
+      vc.insert("@context".into(), json!([BASE_CTX, {}]));
+      vc.insert("type".into(), json!("VerifiableCredential"));
+      vc.insert("credentialStatus".into(), json!({"id": "https://example.edu/status/24", "type": "CredentialStatusList2017", "extra": [1]}));
+      vc.insert("credentialSchema".into(), schema1);
+      vc.insert("refreshService".into(), json!([{"id": "https://example.edu/refresh/3732", "type": ["ManualRefreshService2018"]}]));
+      vc.insert("termsOfUse".into(), json!({"type": "IssuerPolicy"}));
+      vc.insert("evidence".into(), json!([{"id": "https://example.edu/evidence/f2aeec97", "type": ["DocumentVerification"], "verifier": "https://example.edu/issuers/14"}]));
+      vc.insert("proof".into(), json!({"type": "RsaSignature2018"}));
+      vc.insert("nonTransferable".into(), json!(true));
+      vc.insert("iss".into(), json!("did:example:other"));
+    }
+  }
+}
 
 // ================================================================== (3) credential backward
 fn cred_bwd(ctx: &Ctx, acc: &Acc, groups: u8, ch: &mut Chooser) {
   const E: &str = "JwtCredentialValidator::verify_signature";
   let w: &World = &WORLD;
   let mut j = Judge::default();
-  let iss_c = bpt(ch, groups, B_ISS, "iss", 3);
-  let vciss_c = bpt(ch, groups, B_ISS, "vc.issuer", 4);
-  let nbf_c = bpt(ch, groups, B_NBF, "nbf", 8);
-  let iat_c = bpt(ch, groups, B_NBF, "iat", 5);
-  let vcnbf_c = bpt(ch, groups, B_NBF, "vc.issuanceDate", 4);
-  let exp_c = bpt(ch, groups, B_EXP, "exp", 8);
-  let vcexp_c = bpt(ch, groups, B_EXP, "vc.expirationDate", 4);
-  let jti_c = bpt(ch, groups, B_ID, "jti", 2);
-  let vcid_c = bpt(ch, groups, B_ID, "vc.id", 3);
-  let sub_c = bpt(ch, groups, B_SUB, "sub", 2);
-  let vcsub_c = bpt(ch, groups, B_SUB, "vc.credentialSubject.id", 3);
+  let iss_c = bpt(ch, groups, B_ISS, "iss", 4, 3);
+  let vciss_c = bpt(ch, groups, B_ISS, "vc.issuer", 7, 4);
+  let nbf_c = bpt(ch, groups, B_NBF, "nbf", DATE_ALTS, 8);
+  let iat_c = bpt(ch, groups, B_NBF, "iat", IAT_ALTS.len(), 5);
+  let vcnbf_c = bpt(ch, groups, B_NBF, "vc.issuanceDate", 4, 4);
+  let exp_c = bpt(ch, groups, B_EXP, "exp", DATE_ALTS, 8);
+  let vcexp_c = bpt(ch, groups, B_EXP, "vc.expirationDate", 4, 4);
+  let jti_c = bpt(ch, groups, B_ID, "jti", 2, 2);
+  let vcid_c = bpt(ch, groups, B_ID, "vc.id", 3, 3);
+  let sub_c = bpt(ch, groups, B_SUB, "sub", 2, 2);
+  let vcsub_c = bpt(ch, groups, B_SUB, "vc.credentialSubject.id", 3, 3);
+  let subjshape_c = bpt(ch, groups, B_SUB, "vc.credentialSubject shape", 4, 0);
+  let rest_c = bpt(ch, groups, B_REST, "other vc members", 3, 0);
 
-  let issuer_obj = json!({"id": ISSUER, "name": "Example University"});
-  let iss: Option<Value> = match iss_c {
-    0 => Some(json!(ISSUER)),
-    1 => Some(issuer_obj.clone()),
-    _ => None,
+  // issuer forms: URL, object with a member, minimal object (nothing but the id)
+  let issuer_form = |id: &str, form: usize| match form {
+    0 => json!(id),
+    1 => json!({"id": id, "name": "Example University"}),
+    _ => json!({"id": id}),
   };
-  let vc_issuer: Option<Value> = match vciss_c {
-    0 => None,
-    1 => Some(iss.clone().unwrap_or(json!(ISSUER))),
-    2 => Some(if iss_c == 1 { json!({"id": "did:example:mallory", "name": "Example University"}) } else { json!("did:example:mallory") }),
-    _ => Some(if iss_c == 1 { json!(ISSUER) } else { issuer_obj.clone() }),
+  // `iss`: URL, object, absent, minimal object
+  let iss_form: Option<usize> = [Some(0), Some(1), None, Some(2)][iss_c];
+  let iss: Option<Value> = iss_form.map(|f| issuer_form(ISSUER, f));
+  let f0 = iss_form.unwrap_or(0);
+  const MALLORY: &str = "did:example:mallory";
+  let (vc_issuer, vc_issuer_id): (Option<Value>, &str) = match vciss_c {
+    0 => (None, ISSUER),
+    // same form and same id as `iss` (URL when `iss` is absent)
+    1 => (Some(issuer_form(ISSUER, f0)), ISSUER),
+    // same form, other id
+    2 => (Some(issuer_form(MALLORY, f0)), MALLORY),
+    // same id, the two other forms
+    3 => (Some(issuer_form(ISSUER, (f0 + 1) % 3)), ISSUER),
+    4 => (Some(issuer_form(ISSUER, (f0 + 2) % 3)), ISSUER),
+    // other id, the two other forms
+    5 => (Some(issuer_form(MALLORY, (f0 + 1) % 3)), MALLORY),
+    _ => (Some(issuer_form(MALLORY, (f0 + 2) % 3)), MALLORY),
   };
   // expected issuer: Some(value) when determinable
   let mut want_issuer: Option<Value> = iss.clone();
@@ -700,7 +1019,7 @@ fn cred_bwd(ctx: &Ctx, acc: &Acc, groups: u8, ch: &mut Chooser) {
       want_issuer = vc_issuer.clone();
     }
     (Some(a), Some(b)) if a != b => {
-      if vciss_c == 3 {
+      if vc_issuer_id == ISSUER {
         j.open.insert("issuer-same-id-other-form");
         want_issuer = None;
       } else {
@@ -711,7 +1030,7 @@ fn cred_bwd(ctx: &Ctx, acc: &Acc, groups: u8, ch: &mut Chooser) {
   }
   // issuance: N1 is the typical nbf
   let nbf = date_alt(nbf_c, N1);
-  let iat: Option<i64> = [None, Some(N1), Some(N2), Some(MAX_TS + 1), Some(MIN_TS - 1)][iat_c];
+  let iat: Option<i64> = IAT_ALTS[iat_c];
   let vc_nbf: Option<(&str, i64)> = [None, Some((N1_S, N1)), Some((N2_S, N2)), Some((N3_S, N3))][vcnbf_c];
   let effective = nbf.or(iat);
   let mut want_issuance: Option<i64> = effective;
@@ -784,14 +1103,35 @@ fn cred_bwd(ctx: &Ctx, acc: &Acc, groups: u8, ch: &mut Chooser) {
 
   // ---- assemble
   let mut subj = Map::new();
-  subj.insert("degree".into(), degree());
+  // shape 1: no properties at all (with `sub`, the form the library emits for a subject that is nothing but an id)
+  if subjshape_c != 1 {
+    subj.insert("degree".into(), degree());
+  }
   if let Some(s) = vc_sub {
     subj.insert("id".into(), json!(s));
+  }
+  let subject_props = subj.iter().filter(|(k, _)| k.as_str() != "id").map(|(k, v)| (k.clone(), v.clone())).collect::<Map<String, Value>>();
+  let subject_value = match subjshape_c {
+    0 | 1 => Value::Object(subj),
+    2 => {
+      j.open.insert("vc.credentialSubject-array");
+      json!([Value::Object(subj)])
+    }
+    _ => {
+      j.open.insert("vc.credentialSubject-array");
+      json!([Value::Object(subj), {"id": SUBJ2, "name": "second"}])
+    }
+  };
+  if subjshape_c == 1 && sub.is_none() && vc_sub.is_none() {
+    // a subject with neither id nor properties is not a subject of the data model
+    j.open.insert("empty-subject");
   }
   let mut vc = Map::new();
   vc.insert("@context".into(), json!(BASE_CTX));
   vc.insert("type".into(), json!(["VerifiableCredential", "UniversityDegreeCredential"]));
-  vc.insert("credentialSubject".into(), Value::Object(subj));
+  vc.insert("credentialSubject".into(), subject_value);
+  rest_of_vc(rest_c, &mut vc);
+  let mut expected = vc.clone();
   if let Some(v) = &vc_issuer {
     vc.insert("issuer".into(), v.clone());
   }
@@ -848,7 +1188,9 @@ fn cred_bwd(ctx: &Ctx, acc: &Acc, groups: u8, ch: &mut Chooser) {
         return ctx.violation(&format!("{E}|accepted|{}", j.must_reject.join("+")), &format!("{claims_s} -> {}", serde_json::to_string(&dec.credential).unwrap_or_default()), &case);
       }
       let c = &dec.credential;
-      let wrong = |member: &'static str, got: String, want: String| {
+      let mut members_ok = true;
+      let mut wrong = |member: &'static str, got: String, want: String| {
+        members_ok = false;
         ctx.violation(&format!("{E}|accepted|reconstructed-{member}-wrong"), &format!("got {got}, claims say {want}: {claims_s}"), &case)
       };
       if let Some(wi) = &want_issuer {
@@ -871,9 +1213,44 @@ fn cred_bwd(ctx: &Ctx, acc: &Acc, groups: u8, ch: &mut Chooser) {
       if c.id.as_ref().map(|u| u.as_str()) != want_id {
         wrong("id", format!("{:?}", c.id), format!("{want_id:?}"));
       }
-      let got_sub = c.credential_subject.get(0).and_then(|s| s.id.as_ref()).map(|u| u.as_str().to_string());
-      if got_sub.as_deref() != want_sub {
-        wrong("credentialSubject.id", format!("{got_sub:?}"), format!("{want_sub:?}"));
+      if !j.open.contains("vc.credentialSubject-array") {
+        let got_sub = c.credential_subject.get(0).and_then(|s| s.id.as_ref()).map(|u| u.as_str().to_string());
+        if got_sub.as_deref() != want_sub {
+          wrong("credentialSubject.id", format!("{got_sub:?}"), format!("{want_sub:?}"));
+        }
+      }
+      // Everything else: the accepted credential is the one the claim set describes (the members of `vc` that no
+      // registered claim carries, plus the five carried values). Judged where every carried value is determined.
+      if members_ok && j.open.is_empty() {
+        if let (Some(wi), Some(t)) = (&want_issuer, want_issuance) {
+          expected.insert("issuer".into(), wi.clone());
+          expected.insert("issuanceDate".into(), json!(fx::ts(t).to_rfc3339()));
+          if let Some(e) = want_exp {
+            expected.insert("expirationDate".into(), json!(fx::ts(e).to_rfc3339()));
+          }
+          if let Some(i) = want_id {
+            expected.insert("id".into(), json!(i));
+          }
+          let mut s = subject_props;
+          if let Some(i) = want_sub {
+            s.insert("id".into(), json!(i));
+          }
+          expected.insert("credentialSubject".into(), Value::Object(s));
+          let expected = Value::Object(expected);
+          match Credential::<Object>::from_json_value(expected.clone()) {
+            Err(e) => vx::ctx::machinery_exit(&format!("C07 expected credential does not parse: {e}: {expected}")),
+            Ok(want) => {
+              if &want != c {
+                let got = serde_json::to_value(c).unwrap_or(Value::Null);
+                ctx.violation(
+                  &format!("{E}|accepted|reconstructed-other-member-wrong"),
+                  &format!("member {}: got {got}, the claims describe {expected}: {claims_s}", first_diff(&got, &expected)),
+                  &case,
+                );
+              }
+            }
+          }
+        }
       }
     }
   }
@@ -884,13 +1261,15 @@ fn pres_bwd(ctx: &Ctx, acc: &Acc, groups: u8, ch: &mut Chooser) {
   const E: &str = "JwtPresentationValidator::validate";
   let w: &World = &WORLD;
   let mut j = Judge::default();
-  let iss_c = bpt(ch, groups, B_ISS, "iss", 2);
-  let vph_c = bpt(ch, groups, B_ISS, "vp.holder", 3);
-  let nbf_c = bpt(ch, groups, B_NBF, "nbf", 8);
-  let iat_c = bpt(ch, groups, B_NBF, "iat", 5);
-  let exp_c = bpt(ch, groups, B_EXP, "exp", 8);
-  let id_c = bpt(ch, groups, B_ID, "jti/vp.id", 6);
-  let aud_c = bpt(ch, groups, B_SUB, "aud", 2);
+  let iss_c = bpt(ch, groups, B_ISS, "iss", 2, 2);
+  let vph_c = bpt(ch, groups, B_ISS, "vp.holder", 3, 3);
+  let nbf_c = bpt(ch, groups, B_NBF, "nbf", DATE_ALTS, 8);
+  let iat_c = bpt(ch, groups, B_NBF, "iat", IAT_ALTS.len(), 5);
+  let exp_c = bpt(ch, groups, B_EXP, "exp", DATE_ALTS, 8);
+  let id_c = bpt(ch, groups, B_ID, "jti/vp.id", 6, 6);
+  let aud_c = bpt(ch, groups, B_SUB, "aud", 4, 2);
+  let creds_c = bpt(ch, groups, B_REST, "vp.verifiableCredential", 6, 0);
+  let rest_c = bpt(ch, groups, B_REST, "other vp members", 3, 0);
 
   let iss: Option<&str> = [Some(HOLDER), None][iss_c];
   let vp_holder: Option<&str> = [None, Some(HOLDER), Some("did:example:mallory")][vph_c];
@@ -904,7 +1283,7 @@ fn pres_bwd(ctx: &Ctx, acc: &Acc, groups: u8, ch: &mut Chooser) {
     _ => {}
   }
   let nbf = date_alt(nbf_c, N1);
-  let iat: Option<i64> = [None, Some(N1), Some(N2), Some(MAX_TS + 1), Some(MIN_TS - 1)][iat_c];
+  let iat: Option<i64> = IAT_ALTS[iat_c];
   let effective = nbf.or(iat);
   if let Some(t) = effective {
     if !in_range(t) {
@@ -943,12 +1322,58 @@ fn pres_bwd(ctx: &Ctx, acc: &Acc, groups: u8, ch: &mut Chooser) {
     }
     _ => {}
   }
-  let aud: Option<&str> = [None, Some("did:example:verifier")][aud_c];
+  // audience: none, a DID, an https URL with query and fragment, an array (RFC 7519 allows it; the library's model is one URL)
+  let (aud_claim, aud): (Option<Value>, Option<&str>) = match aud_c {
+    0 => (None, None),
+    1 => (Some(json!(AUD_DID)), Some(AUD_DID)),
+    2 => (Some(json!(AUD_URL)), Some(AUD_URL)),
+    _ => {
+      j.open.insert("aud-array");
+      (Some(json!([AUD_DID, AUD_URL])), None)
+    }
+  };
+  // credentials: one JWT, none (the form the library emits: an empty array), member absent, a string that is no JWT
+  // next to a JWT, the empty string first, the same entry twice
+  let (creds_claim, want_creds): (Option<Value>, Vec<&str>) = match creds_c {
+    0 => (Some(json!([JWT1])), vec![JWT1]),
+    1 => (Some(json!([])), vec![]),
+    2 => {
+      j.open.insert("vp.verifiableCredential-absent");
+      (None, vec![])
+    }
+    3 => (Some(json!([JWT1, "not a jwt"])), vec![JWT1, "not a jwt"]),
+    4 => (Some(json!(["", JWT1])), vec!["", JWT1]),
+    _ => (Some(json!([JWT2, JWT2])), vec![JWT2, JWT2]),
+  };
 
   let mut vp = Map::new();
   vp.insert("@context".into(), json!(BASE_CTX));
   vp.insert("type".into(), json!("VerifiablePresentation"));
-  vp.insert("verifiableCredential".into(), json!(["eyJhbGciOiJFZERTQSJ9.e30.c2ln"]));
+  if let Some(c) = &creds_claim {
+    vp.insert("verifiableCredential".into(), c.clone());
+  }
+  match rest_c {
+    0 => {}
+    1 => {
+      vp.insert("@context".into(), json!([BASE_CTX]));
+      vp.insert("type".into(), json!(["VerifiablePresentation"]));
+      vp.insert("refreshService".into(), json!([{"id": "https://example.edu/refresh/3732", "type": "ManualRefreshService2018"}]));
+      vp.insert("termsOfUse".into(), json!({"type": "HolderPolicy"}));
+      vp.insert("proof".into(), json!({"type": "RsaSignature2018"}));
+      vp.insert("name".into(), json!("extra"));
+      vp.insert("aud".into(), json!("did:example:a"));
+    }
+    _ => {
+      vp.insert("@context".into(), json!([BASE_CTX, {"@vocab": "https://example.com/vocab#"}]));
+      vp.insert("type".into(), json!(["VerifiablePresentation", "ExtraPresentation"]));
+      vp.insert("refreshService".into(), json!({"id": "https://example.edu/refresh/2", "type": ["ManualRefreshService2018", "R"], "o": {"k": []}}));
+      vp.insert("termsOfUse".into(), json!([{"type": "HolderPolicy", "id": "https://example.com/policies/presentation/4"}, {"type": ["Other"], "k": [1, 2]}]));
+      vp.insert("proof".into(), json!({"type": "RsaSignature2018", "created": "2017-06-18T21:19:10Z", "jws": "eyJhb...dBBPM"}));
+      vp.insert("exp".into(), json!(5));
+      vp.insert("iss".into(), json!("did:example:other"));
+    }
+  }
+  let mut expected = vp.clone();
   if let Some(h) = vp_holder {
     vp.insert("holder".into(), json!(h));
   }
@@ -967,8 +1392,8 @@ fn pres_bwd(ctx: &Ctx, acc: &Acc, groups: u8, ch: &mut Chooser) {
   if let Some(v) = jti {
     claims.insert("jti".into(), json!(v));
   }
-  if let Some(v) = aud {
-    claims.insert("aud".into(), json!(v));
+  if let Some(v) = &aud_claim {
+    claims.insert("aud".into(), v.clone());
   }
   claims.insert("vp".into(), Value::Object(vp));
   let claims_s = Value::Object(claims).to_string();
@@ -1000,7 +1425,9 @@ fn pres_bwd(ctx: &Ctx, acc: &Acc, groups: u8, ch: &mut Chooser) {
       if !j.must_reject.is_empty() {
         return ctx.violation(&format!("{E}|accepted|{}", j.must_reject.join("+")), &format!("{claims_s} -> {:?}", dec), &case);
       }
-      let wrong = |member: &'static str, got: String, want: String| {
+      let mut members_ok = true;
+      let mut wrong = |member: &'static str, got: String, want: String| {
+        members_ok = false;
         ctx.violation(&format!("{E}|accepted|reconstructed-{member}-wrong"), &format!("got {got}, claims say {want}: {claims_s}"), &case)
       };
       let p = &dec.presentation;
@@ -1016,8 +1443,40 @@ fn pres_bwd(ctx: &Ctx, acc: &Acc, groups: u8, ch: &mut Chooser) {
       if dec.issuance_date.map(|t| t.to_unix()) != effective {
         wrong("issuance_date", format!("{:?}", dec.issuance_date), format!("{effective:?} (nbf, else iat)"));
       }
-      if dec.aud.as_ref().map(|u| u.as_str()) != aud {
+      if aud_c != 3 && dec.aud.as_ref().map(|u| u.as_str()) != aud {
         wrong("aud", format!("{:?}", dec.aud), format!("{aud:?}"));
+      }
+      // the credentials of the presentation: the same entries in the same order, whatever they look like
+      let got_creds: Vec<&str> = p.verifiable_credential.iter().map(|c| c.as_str()).collect();
+      if got_creds != want_creds {
+        wrong("verifiableCredential", format!("{got_creds:?}"), format!("{want_creds:?}"));
+      }
+      // Everything else: the accepted presentation is the one the claim set describes.
+      if members_ok && j.open.is_empty() {
+        if let Some(h) = want_holder {
+          expected.insert("holder".into(), json!(h));
+          if let Some(i) = want_id {
+            expected.insert("id".into(), json!(i));
+          }
+          if want_creds.is_empty() {
+            // the data model writes a presentation without credentials by leaving the member out
+            expected.remove("verifiableCredential");
+          }
+          let expected = Value::Object(expected);
+          match Presentation::<Jwt, Object>::from_json_value(expected.clone()) {
+            Err(e) => vx::ctx::machinery_exit(&format!("C07 expected presentation does not parse: {e}: {expected}")),
+            Ok(want) => {
+              if &want != p {
+                let got = serde_json::to_value(p).unwrap_or(Value::Null);
+                ctx.violation(
+                  &format!("{E}|accepted|reconstructed-other-member-wrong"),
+                  &format!("member {}: got {got}, the claims describe {expected}: {claims_s}", first_diff(&got, &expected)),
+                  &case,
+                );
+              }
+            }
+          }
+        }
       }
     }
   }
@@ -1041,20 +1500,23 @@ fn eval(ctx: &Ctx, case: &Case) {
 }
 
 fn generate(ctx: &Ctx) {
-  ctx.rule("E1 choice DFS. (1) credential forward: 16 presence/shape choice points, all sequences with <= bound deviations from the minimal credential (+ thorough: complete product of reduced alphabets); (2) presentation forward: complete product of 12 points; (3) credential backward: 11 points in 5 groups (issuer, issuance, expiry, id, subject): complete product per group + deviation-bounded across groups (+ thorough: complete product); (4) presentation backward: complete product of 7 points. distinct_nontrivial = distinct (part, mode, choice sequence) that were accepted/round-tripped or rejected for a reason the oracle demands");
+  ctx.rule("E1 choice DFS. (1) credential forward: 16 presence/shape choice points (every object/array-valued member in minimal, one-element-array and many-member shape), all sequences with <= bound deviations from the minimal credential (+ thorough: complete product of reduced alphabets); (2) presentation forward: 15 points (CRED as Jwt or JSON value, holder forms, 0/1/2 credentials incl. strings that are no JWT, options by literal or default()+setters): complete product of the core alphabets + all sequences with <= bound deviations (+ thorough: complete product of reduced alphabets); (3) credential backward: 13 points in 6 groups (issuer, issuance, expiry, id, subject, other vc members): complete product per group + deviation-bounded across groups (+ thorough: complete product of the core alphabets over all groups); (4) presentation backward: complete product of 9 points. distinct_nontrivial = distinct (part, mode, choice sequence) that were accepted/round-tripped or rejected for a reason the oracle demands");
   ctx.assume("tokens are assembled by the harness (base64url by identity_jose::jwu) and verified with an always-Ok JwsVerifier: this property is about the claims, not the signature");
   ctx.assume("data-model credentials / presentations are built with serde from harness JSON; plain serde (de)serialisation of Credential / Presentation is trusted here");
   ctx.assume("issuance date of a claims set is nbf when present, else iat (VC data model 1.1 §6.3.1)");
+  ctx.assume("the owned clock (fx::NOW) is what `JwtPresentationOptions::default()` reads as the current time");
   // machinery self-check of the date constants
-  for (s, u) in [(N1_S, N1), (N2_S, N2), (N3_S, N3), (X1_S, X1), (X2_S, X2), (MIN_S, MIN_TS), (MAX_S, MAX_TS)] {
+  for (s, u) in [(N1_S, N1), (N2_S, N2), (N3_S, N3), (X1_S, X1), (X2_S, X2), (MIN_S, MIN_TS), (MAX_S, MAX_TS), (EPOCH_S, 0)] {
     ctx.require(Timestamp::parse(s).map(|t| t.to_unix()).ok() == Some(u), &format!("date constant {s} != {u}"));
   }
   let acc = Acc::new();
   let fb = ctx.by_tier(4u32, 6u32);
-  let bb = ctx.by_tier(4u32, 5u32);
+  let pb = ctx.by_tier(4u32, 6u32);
+  let bb = ctx.by_tier(4u32, 6u32);
   ctx.bound("credential_forward_deviation_bound", fb);
+  ctx.bound("presentation_forward_deviation_bound", pb);
   ctx.bound("credential_backward_deviation_bound", bb);
-  ctx.bound("numeric_dates", json!([MIN_TS - 1, MIN_TS, MAX_TS, MAX_TS + 1, i64::MIN, i64::MAX]));
+  ctx.bound("numeric_dates", json!([MIN_TS - 1, MIN_TS, MAX_TS, MAX_TS + 1, i64::MIN, i64::MAX, 0, -1]));
 
   choice::explore_into(ctx, "credential forward, deviation-bounded", Some(fb), |ch| run(ctx, &acc, P_CRED_FWD, M_FULL, ch));
   acc.flush(ctx);
@@ -1062,18 +1524,31 @@ fn generate(ctx: &Ctx) {
     choice::explore_into(ctx, "credential forward, complete product of reduced alphabets", None, |ch| run(ctx, &acc, P_CRED_FWD, M_REDUCED, ch));
     acc.flush(ctx);
   }
-  choice::explore_into(ctx, "presentation forward, complete product", None, |ch| run(ctx, &acc, P_PRES_FWD, M_FULL, ch));
+  choice::explore_into(ctx, "presentation forward, complete product of core alphabets", None, |ch| run(ctx, &acc, P_PRES_FWD, M_CORE, ch));
   acc.flush(ctx);
-  for (g, name) in [(B_ISS, "iss x vc.issuer"), (B_NBF, "nbf x iat x vc.issuanceDate"), (B_EXP, "exp x vc.expirationDate"), (B_ID, "jti x vc.id"), (B_SUB, "sub x vc.credentialSubject.id")] {
+  choice::explore_into(ctx, "presentation forward, deviation-bounded", Some(pb), |ch| run(ctx, &acc, P_PRES_FWD, M_FULL, ch));
+  acc.flush(ctx);
+  if ctx.thorough() {
+    choice::explore_into(ctx, "presentation forward, complete product of reduced alphabets", None, |ch| run(ctx, &acc, P_PRES_FWD, M_REDUCED, ch));
+    acc.flush(ctx);
+  }
+  for (g, name) in [
+    (B_ISS, "iss x vc.issuer"),
+    (B_NBF, "nbf x iat x vc.issuanceDate"),
+    (B_EXP, "exp x vc.expirationDate"),
+    (B_ID, "jti x vc.id"),
+    (B_SUB, "sub x vc.credentialSubject.id x shape"),
+    (B_REST, "other vc members"),
+  ] {
     choice::explore_into(ctx, &format!("credential backward, complete: {name}"), None, |ch| run(ctx, &acc, P_CRED_BWD, g, ch));
     acc.flush(ctx);
   }
-  if ctx.thorough() {
-    choice::explore_into(ctx, "credential backward, complete product of all groups", None, |ch| run(ctx, &acc, P_CRED_BWD, B_ALL, ch));
-  } else {
-    choice::explore_into(ctx, "credential backward, all groups, deviation-bounded", Some(bb), |ch| run(ctx, &acc, P_CRED_BWD, B_ALL, ch));
-  }
+  choice::explore_into(ctx, "credential backward, all groups, deviation-bounded", Some(bb), |ch| run(ctx, &acc, P_CRED_BWD, B_ALL, ch));
   acc.flush(ctx);
+  if ctx.thorough() {
+    choice::explore_into(ctx, "credential backward, complete product of core alphabets over all groups", None, |ch| run(ctx, &acc, P_CRED_BWD, B_ALL | B_CORE, ch));
+    acc.flush(ctx);
+  }
   choice::explore_into(ctx, "presentation backward, complete product", None, |ch| run(ctx, &acc, P_PRES_BWD, B_ALL, ch));
   acc.flush(ctx);
 }
